@@ -1000,6 +1000,31 @@ fn pipeline_b(
             }
         }
     }
+    // handles that change threads: opened on one caller thread and dropped on the other,
+    // which then opens and walks a handle of its own (both directions)
+    if hash_seed % 5 == 1 && is_send_sync!(PkgDB) {
+        ctx.fault("caller_thread_switch");
+        let helper = Helper::new();
+        let walk = |path: &std::path::Path, cap: usize| -> usize {
+            let mut n = 0usize;
+            if let Ok(mut d) = PkgDB::open(path) {
+                while n < cap && d.next().is_some() {
+                    n += 1;
+                }
+                let _ = d.next();
+            }
+            n
+        };
+        let cap = pkgs.len() + 16;
+        if let Ok(dbx) = PkgDB::open(&dbpath) {
+            helper.call(move || drop(dbx));
+        }
+        let n1 = helper.call(|| walk(&dbpath, cap));
+        let dby = helper.call(|| PkgDB::open(&dbpath).ok());
+        drop(dby);
+        let n2 = walk(&dbpath, cap);
+        ep!(ctx, "PkgDB walked after a handle was dropped on the other thread", n1 < cap && n2 < cap);
+    }
     listed.sort_by(|a, b| a.pkgname().cmp(b.pkgname()));
     for pkg in listed {
         let _ = (pkg.pkgbase(), pkg.pkgversion());
@@ -1797,7 +1822,11 @@ impl Property for C17 {
                 for c in corruptions {
                     count_corruption(ctx, c);
                 }
-                pipeline_a(&doc.0, script, *buffered, ctx)
+                // (the document at every alignment: a slice starting 0..7 bytes into an allocation)
+                let off = (doc.0.len() + script.len()) % 8;
+                let mut padded = vec![b'~'; off];
+                padded.extend_from_slice(&doc.0);
+                pipeline_a(&padded[off..], script, *buffered, ctx)
             }
             Sc::B {
                 pkgs,
